@@ -413,6 +413,9 @@ theorem C06_critical_sections_in_source :
     Facts.locks_GetTxRequests =
       ["for{", "m.RLock", "m.RUnlock", "txMap.RLock", "for{", "data.Lock", "if{", "data.Unlock", "}", "if{",
        "data.Unlock", "}", "if{", "data.Unlock", "}", "data.Unlock", "}", "txMap.RUnlock", "if{", "return", "}", "}",
-       "return"] := by decide
+       "return"] ∧
+    -- `Clean` (excluded from the exactly-once theorems for what it removes BY AGE) rebuilds a bucket under that
+    -- bucket's write lock: an entry inserted meanwhile cannot be lost
+    Facts.locks_Clean = ["for{", "m.RLock", "m.RUnlock", "txMap.Lock", "txMap.Unlock", "}", "return"] := by decide
 
 end BRV.TxMgr
